@@ -195,9 +195,10 @@ def run(ctx):
 
         allform = []
 
-        def predicate_covers(cb):
+        def predicate_covers(cb, reject=False):
             """kinds of comparison that hold on *every* path of the (loop-free) predicate closure on
-            which it can return something other than `false`"""
+            which it can return something other than `reject` (false for `all(pred)`, true for
+            `any(!pred)`)"""
             if cb.natural_loops():
                 return set()
             ebc = ExprBuilder(cb)
@@ -222,6 +223,10 @@ def run(ctx):
                         benv[l] = ("c", bool(rv["op"]["bool"]))
                     elif rv["k"] == "use" and rv["op"].get("k") in ("move", "copy") and not rv["op"]["place"]["proj"] and rv["op"]["place"]["local"] in benv:
                         benv[l] = benv[rv["op"]["place"]["local"]]
+                    elif rv["k"] == "unop" and rv.get("op") == "Not" and rv["a"].get("k") in ("move", "copy") and not rv["a"]["place"]["proj"] \
+                            and rv["a"]["place"]["local"] in benv:
+                        src_ = benv[rv["a"]["place"]["local"]]
+                        benv[l] = ("c", not src_[1]) if src_[0] == "c" else ("e", ("un", "Not", src_[1]))
                     else:
                         benv[l] = ("e", ebc.at(bb, idx).rvalue(rv))
                 t = cb.blocks[bb]["term"]
@@ -230,11 +235,11 @@ def run(ctx):
                 if t["k"] == "return":
                     npaths += 1
                     r = benv.get(0)
-                    if r is not None and r[0] == "c" and r[1] is False:
+                    if r is not None and r[0] == "c" and r[1] is reject:
                         continue
                     ks = set(held)
                     if r is not None and r[0] == "e":
-                        k = classify(("false", r[1]))
+                        k = classify(("true" if reject else "false", r[1]))
                         if k:
                             ks.add(k)
                     covers = ks if covers is None else covers & ks
@@ -266,6 +271,13 @@ def run(ctx):
                 l, r = show(cmp_[2]), show(cmp_[3])
                 if l.startswith("len(") and r.startswith("len(") and "stream_models" in l and "stream_models" in r and l != r:
                     return "count"
+            if cmp_[0] == "call" and cmp_[1].endswith("::any") and "Iterator" in cmp_[1] and pos and len(cmp_[2]) == 2:
+                # `others.iter().any(|voice| !<the three comparisons>)`
+                for cl in [x for x in walk(cmp_[2][1]) if x[0] == "agg" and x[1].startswith("closure:")]:
+                    cb = p.bodies.get(cl[1][len("closure:"):])
+                    if cb is not None and predicate_covers(cb, reject=True) == {"global", "count", "stream"}:
+                        allform.append(show(cmp_[2][0]))
+                        return "all"
             if cmp_[0] == "call" and cmp_[1].endswith("::all") and "Iterator" in cmp_[1] and not pos and "stream_models" not in txt and len(cmp_[2]) == 2:
                 # `others.iter().all(|voice| <the three comparisons>)`: one test, whose predicate
                 # returns true only when all three comparisons hold
